@@ -119,6 +119,49 @@ def run(F, ck, tier):
         ck.ob('R02.10', 'split_le.every-exit-constrains', not unconstrained, '%d exits, each after a constraint on the integer' % nret[0] if not unconstrained else
               'UNCONSTRAINED EXIT: split_le returns at %s without having constrained the integer it was asked to split: range_check(x, n) for that case accepts every x' % ', '.join(map(str, unconstrained)),
               unconstrained[0] if unconstrained else None)
+    # R02.11 no vacuous equality constraint
+    ck.rule('R02.11', 'no equality constraint relates an expression to itself: connect(x, x) / connect_hashes(h, h) / assert_equal(x, x) constrains nothing, the intended partner is missing')
+    EQ_CALLS = {'connect', 'connect_hashes', 'connect_extension', 'connect_merkle_caps', 'connect_verifier_data', 'assert_equal', 'connect_hash', 'connect_fri_proof', 'connect_opening_set'}
+    neq = 0
+
+    def _n(n):
+        if isinstance(n, dict):
+            return {k: _n(v) for k, v in n.items() if k not in ('s', 't', 'ta', 'id')}
+        if isinstance(n, list):
+            return [_n(x) for x in n]
+        return n
+    import json as _json
+    for fn in sorted(F.fns.values(), key=lambda f: f.qual):
+        if fn.crate not in ('plonky2', 'starky') or fn.body is None:
+            continue
+        for x in walk(fn.body):
+            if x.get('k') == 'MCall' and x.get('n') in EQ_CALLS and len(x.get('a', [])) == 2:
+                neq += 1
+                a, b = x['a']
+                if _json.dumps(_n(a), sort_keys=True) == _json.dumps(_n(b), sort_keys=True) and not any(y.get('k') in ('MCall', 'Call') for y in walk(a)):
+                    ck.ob('R02.11', 'self-equality:%s:%s' % (fn.qual, x['n']), False, 'VACUOUS CONSTRAINT: %s calls %s with the same expression on both sides: the equality it was meant to enforce (against the other object) has left the circuit' % (fn.qual, x['n']), x.get('s'))
+    ck.ob('R02.11', 'self-equality:none', True, '%d two-sided equality constraints, none relates an expression to itself' % neq)
+    ck.floor('R02.11', 'two-sided equality-constraint call sites', neq, 55)
+    # R02.12 copy classes are grouped in ONE map over all rows
+    ck.rule('R02.12', 'wire_partition groups the routed wires by representative in a single map created outside every loop / closure: per-block maps that are concatenated split a copy class that spans blocks into several sigma cycles')
+    wp = F.one('Forest::wire_partition', crate='plonky2')
+    if wp is None or wp.body is None:
+        ck.ob('R02.12', 'anchor', False, 'ANCHOR-MISSING Forest::wire_partition')
+    else:
+        top = {s_['p']['id'] for s_ in wp.body.get('st', []) if s_.get('k') == 'Let' and s_.get('p', {}).get('k') == 'Bind'}
+        ents = [x for x in walk(wp.body) if x.get('k') == 'MCall' and x.get('n') == 'entry']
+        okg = bool(ents)
+        why12 = ''
+        for e_ in ents:
+            r_ = e_['r']
+            while r_.get('k') in ('Ref', 'Un'):
+                r_ = r_['e']
+            if not (r_.get('k') == 'Local' and r_['id'] in top):
+                okg = False
+                why12 = 'the grouping map `%s` is created inside a loop or closure' % r_.get('n', '?')
+        ck.ob('R02.12', 'partition.global-map', okg, 'one map for all rows' if okg else
+              'PER-BLOCK COPY CLASSES: in Forest::wire_partition %s: a copy class whose wires lie in different blocks becomes several permutation cycles, so wires that must be equal can differ' % (why12 or 'no grouping by representative found'),
+              ents[0].get('s') if ents else '%s:%d' % (wp.file, wp.line))
     # R02.8 routable boundary
     ck.rule('R02.8', 'Wire::is_routable holds exactly for columns below num_routed_wires (the columns that have a sigma polynomial): the comparison is normalised algebraically, so equivalent spellings pass')
     routable_boundary(F, ck)
